@@ -39,7 +39,9 @@ type TextGen struct {
 
 var reservedPrefixes = []string{"prefix", "suffix", "matches", "length", "contains", "true", "false", "hex:"}
 
-var identPool = []string{"right", "resource", "operation", "user", "owner", "p", "q", "r", "edge", "f", "member_of", "t0", "admin", "is_ok", "a1", "x", "ns:name", "camelCase", "z9_"}
+var identPool = []string{"right", "resource", "operation", "user", "owner", "p", "q", "r", "edge", "f", "member_of", "t0", "admin", "is_ok", "a1", "x", "ns:name", "camelCase", "z9_",
+	// names that begin like a method or keyword the lexer does not reserve
+	"union_member", "intersections", "starts_with_a", "ends_with_txt", "allow_list", "deny_all", "check_in", "hexa", "orbit", "query", "nonce"}
 
 func validIdent(s string) bool {
 	if s == "or" || s == "" {
@@ -63,7 +65,9 @@ func (g *TextGen) ident(t *rapid.T) string {
 	return rapid.SampledFrom(identPool).Draw(t, "ident")
 }
 
-var varPool = []string{"x", "y", "z", "0", "1", "var", "file", "true", "length", "X_1", "a:b", "resource", "t"}
+var varPool = []string{"x", "y", "z", "0", "1", "var", "file", "true", "length", "X_1", "a:b", "resource", "t",
+	// default symbols as variable names, the first and the last of the table included
+	"read", "query", "nonce", "hostname", "operation", "time", "write"}
 
 func (g *TextGen) variable(t *rapid.T) m.Term {
 	return m.Var(rapid.SampledFrom(varPool).Draw(t, "var"))
